@@ -8,6 +8,19 @@ HERE = os.path.dirname(os.path.abspath(__file__))
 NATIVE_DIR = os.path.join(os.path.dirname(HERE), "contracts", "native")
 
 
+def inject_native(snapshot, spec):
+    """Append the unit's source as a child module (cfg verif_replay) to the file it belongs to; idempotent."""
+    target = os.path.join(snapshot, spec["file"])
+    if not os.path.exists(target):
+        return
+    modname = "verif_native_" + os.path.splitext(spec["source"])[0]
+    src = open(target).read()
+    if ("mod %s " % modname) not in src:
+        body = open(os.path.join(NATIVE_DIR, spec["source"])).read()
+        src += "\n\n#[cfg(verif_replay)]\n#[allow(unused, clippy::all)]\nmod %s {\nuse super::*;\n%s\n}\n" % (modname, body)
+        open(target, "w").write(src)
+
+
 def run_native(snapshot, native_target, spec, timeout=900):
     """spec: dict(file=<src file to inject into>, source=<contracts/native/x.rs>, modpath=<module path of file>,
     test=<test fn name>)"""
